@@ -176,11 +176,11 @@ VARIANTS = {
     # name: (compiler, flags)
     "exact": ("g++", ["-std=c++17", "-O1", "-w"]),
     "exact_checks": ("g++", ["-std=c++17", "-O1", "-w", "-DBSPLINE_ADD_TEST_CHECKS"]),
-    "fp": ("g++", ["-std=c++17", "-O2", "-w", "-DVH_FP"]),
-    "fp_checks": ("g++", ["-std=c++17", "-O2", "-w", "-DVH_FP", "-DBSPLINE_ADD_TEST_CHECKS"]),
-    "fp_O0": ("g++", ["-std=c++17", "-O0", "-w", "-DVH_FP"]),
-    "fp_O3": ("g++", ["-std=c++17", "-O3", "-w", "-DVH_FP"]),
-    "fp_clang": ("clang++-14", ["-std=c++17", "-O2", "-w", "-DVH_FP"]),
+    "fp": ("g++", ["-std=c++17", "-O2", "-w", "-DVH_FP", "-DBSPLINE_INTERPOLATION_USE_EIGEN"]),
+    "fp_checks": ("g++", ["-std=c++17", "-O2", "-w", "-DVH_FP", "-DBSPLINE_INTERPOLATION_USE_EIGEN", "-DBSPLINE_ADD_TEST_CHECKS"]),
+    "fp_O0": ("g++", ["-std=c++17", "-O0", "-w", "-DVH_FP", "-DBSPLINE_INTERPOLATION_USE_EIGEN"]),
+    "fp_O3": ("g++", ["-std=c++17", "-O3", "-w", "-DVH_FP", "-DBSPLINE_INTERPOLATION_USE_EIGEN"]),
+    "fp_clang": ("clang++-14", ["-std=c++17", "-O2", "-w", "-DVH_FP", "-DBSPLINE_INTERPOLATION_USE_EIGEN"]),
     "exactd": ("g++", ["-std=c++17", "-O2", "-w", "-DVH_SCALAR=double", "-pthread"]),
     "exact_thr": ("g++", ["-std=c++17", "-O1", "-w", "-pthread"]),
     "tsan": ("clang++-14", ["-std=c++17", "-O1", "-g", "-w", "-fsanitize=thread", "-pthread"]),
